@@ -27,14 +27,14 @@ func keepFields(r M, s fieldSet) M {
 
 // Projection describes what a property looks at.
 type Projection struct {
-	SkipPreamble bool // the property does not judge startup/auth/parameters (preamble rule)
-	Global       bool // keep the "global parameter map after the run" event
-	Wire         bool // keep the raw-wire facts of a TLS session (every server write is TLS records)
-	Alloc        bool // measure and keep the allocation caused by every hostile message
-	Intact       bool // keep the "everything retained is intact" event
-	Recv    map[string]fieldSet // per backend message type; "*" = default
-	Cb      map[string]fieldSet // per callback name; "*" = default
-	CtxKeys fieldSet            // which keys of a callback's ctx record are kept (nil = all)
+	SkipPreamble bool                // the property does not judge startup/auth/parameters (preamble rule)
+	Global       bool                // keep the "global parameter map after the run" event
+	Wire         bool                // keep the raw-wire facts of a TLS session (every server write is TLS records)
+	Alloc        bool                // measure and keep the allocation caused by every hostile message
+	Intact       bool                // keep the "everything retained is intact" event
+	Recv         map[string]fieldSet // per backend message type; "*" = default
+	Cb           map[string]fieldSet // per callback name; "*" = default
+	CtxKeys      fieldSet            // which keys of a callback's ctx record are kept (nil = all)
 }
 
 func (p *Projection) KeepRecv(r M) M {
